@@ -447,6 +447,11 @@ impl Memfs {
                 dst_root.mash(src.path().trim_prefix(src_root.path()))
             };
 
+            // Copying into the directory the source is already in resolves to the source itself
+            if dst_path == src.path() {
+                continue;
+            }
+
             // Recreate links if were not following them
             if !cp.follow && src.is_symlink() {
                 self._symlink(guard, dst_path, src.alt())?;
